@@ -12,7 +12,7 @@ if [ "$REPO" != "/repo" ]; then
   cp go.sum "$ROOT/out/alt.sum"
   MODARGS=(-modfile="$ROOT/out/alt.mod")
 fi
-go build "${MODARGS[@]}" -tags verif -o "$ROOT/bin/vcheck" ./cmd/vcheck &
+go build "${MODARGS[@]}" -tags verif -gcflags=all=-d=checkptr -o "$ROOT/bin/vcheck" ./cmd/vcheck &
 P1=$!
 go build "${MODARGS[@]}" -tags verif -race -o "$ROOT/bin/vcheck-race" ./cmd/vcheck &
 P2=$!
